@@ -104,6 +104,71 @@ pub fn valid_stream(rng: &mut Rng, zlib: bool, target: usize, max_dist: usize, s
     }
 }
 
+/// Object reuse: in some runs the decoder object has a past - an earlier stream (valid, corrupted, a
+/// targeted RFC violation, random bytes; run to its end or abandoned after a few calls) followed by
+/// `init()` / `reset*()`. `valid_premise`: the stream of the run proper is valid by construction, so the
+/// stale-window policy MinReset may be used for the streaming wrapper as well.
+pub fn add_prelude(rng: &mut Rng, s: &mut Script, valid_premise: bool) {
+    let zl = rng.chance(1, 2);
+    let bytes: Vec<u8> = match rng.below(10) {
+        0 | 1 => {
+            let spec = foreign::ALL_SPECS[rng.usize_below(foreign::ALL_SPECS.len())];
+            let zl2 = zl || spec.is_zlib();
+            s.set("prelude_zlib", zl2 as i64);
+            let cfg = GenCfg { zlib: zl2, target: rng.range(0, 600), spec, max_dist: 32768, edge: 0 };
+            foreign::generate(rng, &cfg).bytes
+        }
+        2 => {
+            s.set("prelude_zlib", zl as i64);
+            let n = rng.range(0, 200);
+            rng.bytes(n)
+        }
+        x => {
+            s.set("prelude_zlib", zl as i64);
+            let t = if rng.chance(1, 8) { rng.range(30_000, 70_000) } else { rng.range(0, 3000) };
+            let mut b = valid_stream(rng, zl, t, 32768, None).bytes;
+            if x < 6 && !b.is_empty() {
+                // corrupted or cut short
+                let mut st = crate::script::Stats::default();
+                b = apply_faults(&b, &[random_fault(rng, b.len())], &mut st);
+            }
+            b
+        }
+    };
+    s.set("prelude", 1);
+    s.set("prelude_chunk", match rng.below(4) {
+        0 => 1,
+        1 => rng.range(2, 40) as i64,
+        _ => 1 << 20,
+    });
+    s.set("prelude_calls", match rng.below(4) {
+        0 => rng.range(1, 3) as i64,
+        1 => rng.range(4, 40) as i64,
+        _ => 100_000,
+    });
+    let pol = if valid_premise { rng.pick(&[0i64, 1, 2, 2, 3]) } else { rng.pick(&[0i64, 1, 3]) };
+    s.set("prelude_policy", pol);
+    if (pol == 1 || pol == 2) && s.c("entry") == 1 {
+        // these policies keep the data format of the state
+        s.set("prelude_zlib", s.c("zlib"));
+    }
+    s.set_blob("prelude", bytes);
+}
+
+/// Flag dimensions shared by the decoder checks: ignore-checksum, stop-at-block-boundary, object reuse.
+fn add_dims(rng: &mut Rng, s: &mut Script, valid_premise: bool, allow_ignore: bool) {
+    let e = s.c("entry");
+    if allow_ignore && s.c("zlib") != 0 && e != 2 && rng.chance(1, 8) {
+        s.set("ignore_adler", 1);
+    }
+    if e == 0 && rng.chance(1, 12) {
+        s.set("stop_bb", 1);
+    }
+    if (e == 0 || e == 1) && s.c("family") == 0 && rng.chance(1, 10) {
+        add_prelude(rng, s, valid_premise);
+    }
+}
+
 fn small_target(rng: &mut Rng, tier: Tier) -> usize {
     let big = if tier == Tier::Thorough { 6 } else { 3 };
     match rng.below(100) {
@@ -215,6 +280,7 @@ pub fn gen_c03(rng: &mut Rng, _i: u64, tier: Tier) -> Script {
     set_entry(&mut s, rng, e, Some(&vs), zlib, vs.bytes.len());
     s.set("foreign", vs.foreign as i64);
     s.set_blob("stream", vs.bytes);
+    add_dims(rng, &mut s, true, true);
     for f in feats {
         s.cfg.push((format!("+{}", f), 1));
     }
@@ -321,8 +387,8 @@ pub fn gen_c04(rng: &mut Rng, _i: u64, tier: Tier) -> Script {
     let premise_valid = s.c("trunc_of_valid") != 0;
     set_entry(&mut s, rng, e, if premise_valid { vs_opt.as_ref() } else { None }, zlib, n_in);
     if e == 10 && !premise_valid {
-        // any ring size 2^8..2^15 for mutated streams; the model applies ring semantics
-        let bits = if rng.chance(1, 2) { 15 } else { rng.range(8, 15) };
+        // any ring size 2^8..2^17 for mutated streams; the model applies ring semantics
+        let bits = if rng.chance(1, 2) { 15 } else { rng.range(8, 17) };
         s.set("ring_bits", bits as i64);
     }
     if e == 1 {
@@ -341,6 +407,7 @@ pub fn gen_c04(rng: &mut Rng, _i: u64, tier: Tier) -> Script {
     }
     let _ = vs_opt;
     s.set_blob("stream", stream);
+    add_dims(rng, &mut s, premise_valid, true);
     s
 }
 
@@ -442,6 +509,7 @@ pub fn gen_c06(rng: &mut Rng, _i: u64, tier: Tier) -> Script {
         }
     }
     s.set_blob("stream", vs.bytes);
+    add_dims(rng, &mut s, true, true);
     s
 }
 
@@ -513,11 +581,20 @@ pub fn gen_c07(rng: &mut Rng, _i: u64, tier: Tier) -> Script {
         }
         s.set("hasmore", rng.pick(&[0i64, 0, 0, 0, 1]));
     } else {
-        let e = pick_entry(rng, &[(0, 40), (10, 40), (1, 20)]);
+        let e = pick_entry(rng, &[(0, 36), (10, 36), (1, 18), (3, 10)]);
         set_entry(&mut s, rng, e, vs.as_ref(), zlib, n_in);
         if e == 10 && vs.is_none() {
-            let bits = if rng.chance(1, 2) { 15 } else { rng.range(8, 15) };
+            let bits = if rng.chance(1, 2) { 15 } else { rng.range(8, 17) };
             s.set("ring_bits", bits as i64);
+        }
+        if e == 3 {
+            // the slice-iterator helper: the partition into slices is the schedule (several slices wanted)
+            if s.ops.len() < 2 {
+                s.ops = vec![vec![rng.range(1, 9) as i64], vec![rng.range(1, 400) as i64]];
+            }
+            if s.c("cap_extra") < 1 {
+                s.set("cap_extra", 1);
+            }
         }
         if e == 1 {
             s.set("first_finish", 0);
@@ -531,11 +608,13 @@ pub fn gen_c07(rng: &mut Rng, _i: u64, tier: Tier) -> Script {
             0 | 1 | 2 => 1,
             _ => 0,
         });
-        if e == 1 {
+        if e == 1 || e == 3 {
             s.set("hasmore", 0);
         }
     }
     s.set_blob("stream", stream);
+    let valid = vs.is_some() && s.faults.is_empty();
+    add_dims(rng, &mut s, valid, true);
     s
 }
 
@@ -620,6 +699,8 @@ pub fn gen_c08(rng: &mut Rng, _i: u64, _tier: Tier) -> Script {
     }
     s.set("hasmore", rng.pick(&[0i64, 0, 0, 1]));
     s.set_blob("stream", stream);
+    let valid = vs.is_some() && s.faults.is_empty();
+    add_dims(rng, &mut s, valid, true);
     s
 }
 
@@ -631,10 +712,10 @@ pub fn gen_c09_dec(rng: &mut Rng, i: u64, tier: Tier) -> Script {
     let mut s = Script::new("C09", "dec");
     s.set("zlib", 1);
     s.set("clauses", CL_C09);
-    let sweeps = if tier == Tier::Thorough { 54 } else { 18 };
+    let sweeps = if tier == Tier::Thorough { 66 } else { 22 };
     if i < sweeps {
-        // deterministic family: all 65 536 headers x {flat, ring 2^8 .. 2^15}
-        let mode_ix = i % 9;
+        // deterministic family: all 65 536 headers x {flat, ring 2^8 .. 2^17}
+        let mode_ix = i % 11;
         let cfg = GenCfg { zlib: true, target: rng.range(1, 120), spec: Spec::None, max_dist: 200, edge: 0 };
         let st = foreign::generate(rng, &cfg);
         s.set("entry", 0);
@@ -646,7 +727,7 @@ pub fn gen_c09_dec(rng: &mut Rng, i: u64, tier: Tier) -> Script {
             s.set("ring_bits", 7 + mode_ix as i64);
             s.set("ringfill", rng.below(1 << 30) as i64);
         }
-        if i >= 9 {
+        if i >= 11 {
             // chunked delivery: header split from the body, tiny pieces
             s.ops = vec![vec![1, -1], vec![1, -1], vec![rng.range(0, 3) as i64, -1]];
         }
@@ -688,6 +769,11 @@ pub fn gen_c09_dec(rng: &mut Rng, i: u64, tier: Tier) -> Script {
     }
     s.set("hasmore", 0);
     s.set_blob("stream", vs.bytes);
+    if e == 10 && rng.chance(1, 6) {
+        s.set("ring_bits", rng.range(16, 17) as i64);
+    }
+    let valid = s.faults.is_empty();
+    add_dims(rng, &mut s, valid, false);
     s
 }
 
